@@ -115,8 +115,9 @@ def gen_scenario(rng, k, n_ops):
         bearer['mtu'] = rng.choice([23, 24, 25, 26, 27, 28, 29, 30, 31, 32, 33, 34, 35, 36, 40, 48])
     scn = {'db': db, 'bearer': bearer, 'max_mtu': 517 if rng.chance(5, 6) else rng.choice([23, 64, 200, 1000]),
            'ops': []}
+    ac.plan_wire(rng, scn)
     # the model database is needed to aim requests at existing handles: build once
-    probe = ac.run_impl({'db': db, 'bearer': bearer, 'ops': []})
+    probe = ac.run_impl(dict(scn, ops=[]))
     mdb = probe['db']
     mtu = bearer['mtu']
     opcodes = []
@@ -148,7 +149,7 @@ def gen_initiated_scenario(rng, n_ops):
         chars.append(c)
     db = {'services': [{'uuid': '180F', 'primary': True, 'chars': chars}], 'decl_perm': {}}
     bearer = gen_bearer(rng)
-    scn = {'db': db, 'bearer': bearer, 'max_mtu': 517, 'ops': []}
+    scn = ac.plan_wire(rng, {'db': db, 'bearer': bearer, 'max_mtu': 517, 'ops': []})
     hs = [3 + 3 * i for i in range(len(chars))]      # service, (decl, value, cccd)*
     mtu = bearer['mtu']
     queued = 0
@@ -229,7 +230,7 @@ def gen_multi_scenario(rng, k, n_ops):
                {'mtu': rng.choice(MTUS), 'enc': secs[1][0], 'auth': secs[1][1], 'enh': False}]
     esec = secs[on] if on is not None else secs[2]
     bearers.append({'mtu': rng.choice(MTUS), 'enc': esec[0], 'auth': esec[1], 'enh': True, 'on': on})
-    scn = {'db': db, 'bearers': bearers, 'max_mtu': 517, 'ops': []}
+    scn = ac.plan_wire(rng, {'db': db, 'bearers': bearers, 'max_mtu': 517, 'ops': []})
     probe = ac.run_impl(dict(scn, ops=[]))
     mdb = probe['db']
     hs = [3 + 3 * i for i in range(len(chars))]
@@ -315,7 +316,7 @@ def check_scenarios(ctx, labelled):
     from lib.verif import _jobs
     scns = [s for _, s in labelled]
     impl = [ac.run_impl(s) for s in scns]
-    exprs = [ac.coq_scenario_multi(r['db'], s) if 'bearers' in s else ac.coq_scenario(r['db'], s)
+    exprs = [ac.coq_scenario_multi(r['db'], s, r['init_mtus']) if 'bearers' in s else ac.coq_scenario(r['db'], s, r['init_mtus'])
              for s, r in zip(scns, impl)]
     model = ctx.coq_eval(['Model.AttServer'], exprs, shard=max(3, (len(exprs) + _jobs() - 1) // _jobs()))
     for k, ((label, s), r, mv) in enumerate(zip(labelled, impl, model)):
@@ -428,7 +429,7 @@ def replay(ctx, obj):
     if not bad:
         print('oracle: holds')
     try:
-        mv = ctx.coq_eval(['Model.AttServer'], [ac.coq_scenario(r['db'], s)])[0]
+        mv = ctx.coq_eval(['Model.AttServer'], [ac.coq_scenario(r['db'], s, r['init_mtus'])])[0]
         print('model:', ac.model_result(mv)['outs'])
     except Exception as e:          # the model may not be built
         print('model: not evaluated:', type(e).__name__)
